@@ -227,4 +227,156 @@ theorem transport_refines {p : TransportP} {g : Grid} {prices : Prices} {fullT :
     · intro n t; rw [hfl n t]; exact transport_flow p g hg n0 n1 n cts' t y [] [] 1
     · exact transport_cash p g hg n0 n1 cts' hcl y [] [] 1 hguard hb
 
+/-! ## contract -/
+
+/-- **contract_refines, one-variable form** (no spread, or capacities of one sign only).  With `lo`, `hi` the
+    RATES that `make_vector` returns for `min_cap`, `max_cap` (scalar, array, price key or interval data), the
+    problem `buildSimpleContract` returns and the textbook contract — volume `q_t ∈ [lo_t, hi_t]·dt_t`, flow
+    `+q_t`, cash `−df_t·(price_t·q_t + ec_t·|q_t|)` — have the SAME attainable (flows, cash) pairs, `q = x`.
+    The spread enters the single cost coefficient with the sign of the only possible direction
+    (`price − ec` when the contract can only buy, `price + ec` when it can only sell). -/
+theorem contract_refines_one {p : ContractP} {g : Grid} {prices : Prices} {fullT : Nat} {P : AssetProblem}
+    (hg : g.Ok) (h : buildSimpleContract p g prices fullT = .ok P) :
+    ∃ (d : SCData) (minO maxO ecO : List (Option Rat)) (lo hi : List Rat),
+      priceVector p.price g prices fullT = .ok d.price ∧
+      contractVectors p g prices = .ok (minO, maxO, ecO) ∧ allSome ecO = .ok d.ec ∧
+      baseVector p.minCap g prices none = .ok (lo.map some) ∧
+      baseVector p.maxCap g prices none = .ok (hi.map some) ∧ p.nodes.head? = some d.node ∧
+      (oneVariable d.ec d.minC d.maxC = true →
+        RefinesExactly P (contractSem (contractS1 lo hi d.price d.ec d.node) g)) := by
+  obtain ⟨d, minO, maxO, ecO, hp, hv, he, hmi, hma, ⟨rest, hn⟩, rfl⟩ := buildSimpleContract_ok h
+  obtain ⟨h1, h2, _, _⟩ := contractVectors_ok hv
+  obtain ⟨lo, hlo, hlol, hlo'⟩ := capVector_eq hg h2 hmi
+  obtain ⟨hi, hhi, hhil, hhi'⟩ := capVector_eq hg h1 hma
+  have hl := scData_lengths hg hp hv he hmi hma
+  refine ⟨d, minO, maxO, ecO, lo, hi, hp, hv, he, hlo, hhi, by simp [hn], ?_⟩
+  intro hone
+  rw [if_pos hone]
+  have hvol : ∀ q : Nat → Rat,
+      (∀ k, k < g.T → lo.getD k 0 * dtOf g k ≤ q k ∧ q k ≤ hi.getD k 0 * dtOf g k) →
+      ∀ k, k < g.T → d.minC.getD k 0 ≤ q k ∧ q k ≤ d.maxC.getD k 0 := by
+    intro q hq k hk
+    rw [hlo', hhi', getD_zipWith_mul _ _ _ (by omega) (by rw [hg.2.1]; exact hk),
+      getD_zipWith_mul _ _ _ (by omega) (by rw [hg.2.1]; exact hk)]
+    exact hq k hk
+  intro fl c
+  constructor
+  · rintro ⟨q, ⟨hb, _⟩, hfl, rfl⟩
+    refine ⟨q, ⟨?_, ?_⟩, ?_, ?_⟩
+    · show InBounds d.minC d.maxC q
+      rw [hlo', hhi']
+      exact (contract_bounds_iff lo hi g hg hlol hhil q).mpr hb
+    · intro r hr; simp [scOne] at hr
+    · intro n t; rw [hfl n t]; exact (contract_flow_one p g hg d lo hi n t q).symm
+    · exact (contract_cash_one p g hg d lo hi q hl hone (hvol q hb)).symm
+  · rintro ⟨y, ⟨hbd, _⟩, hfl, rfl⟩
+    have hbd' : InBounds d.minC d.maxC y := hbd
+    rw [hlo', hhi'] at hbd'
+    have hb := (contract_bounds_iff lo hi g hg hlol hhil y).mp hbd'
+    refine ⟨y, ⟨hb, ?_, ?_⟩, ?_, ?_⟩
+    · intro q hq; simp [contractS1] at hq
+    · intro q hq; simp [contractS1] at hq
+    · intro n t; rw [hfl n t]; exact contract_flow_one p g hg d lo hi n t y
+    · exact contract_cash_one p g hg d lo hi y hl hone (hvol y hb)
+
+/-! ## not proved here (TARGET statements)
+
+* TARGET `contract_refines_two` — two-variable form (`oneVariable d.ec d.minC d.maxC = false`), hypotheses
+  `∀ k < g.T, 0 ≤ d.ec.getD k 0` and `∀ k < g.T, 0 ≤ dfOf g k`:
+  `Refines (scTwo p g d) (contractSem (contractS1 lo hi d.price d.ec d.node) g)` — textbook → model by splitting
+  `q` into `min(q,0)`, `max(q,0)` (same cash), model → textbook by netting `q = x_in + x_out`, where the cash can
+  only rise (`|x_in + x_out| ≤ x_out − x_in`).  Not `RefinesExactly`: the model also allows wasteful
+  simultaneous buying and selling.  That `ec ≥ 0` is needed is shown below (`ec_nonneg_needed`).
+* TARGET `take_rows_spec` — from `EAO.C08.take_prorated`: a row of `defineRestr` holds iff
+  `Period.volume … (≤|≥) Period.limit …` of `takesOK` (then `contract_refines` for `buildContract`,
+  `transport_refines` for `buildExtTransport` with the volume leaving the first node).
+* TARGET `multi_refines` — from `EAO.C08.multi_mapping`: `ContractS.nodes := p.nodes.zip factors`.
+* the empty window (`g.T = 0`): every builder returns the problem without variables (`EAO.C08.empty_window_inert`),
+  whose only attainable pair is (no flow, no cash), as is the textbook's.
+All of these are covered on the real code by the oracle `harness/comp/textbook.py`. -/
+
 end EAO.C02
+
+/-! ### non-vacuity and numeric cross-checks (evaluated by the kernel) -/
+namespace EAO.C02.Ex
+open EAO EAO.Storage EAO.Textbook EAO.Perm
+
+def vecOf (xs : List Rat) : Vec := fun j => xs.getD j 0
+def feasB (a : AssetProblem) (x : Vec) : Bool := decide (InBounds a.l a.u x) && a.rows.all fun r => decide (r.Sat x)
+
+/-- two steps of one hour, discounted with 1 and 1/2 -/
+def g2 : Grid := { pts := [0, 3600], idx := [0, 1], dt := [1, 1], Dt := [1, 2], df := [1, 1/2] }
+
+/-- two-node storage with everything switched on: efficiency 1/2, inflow, start 1, end 0, all three costs -/
+def st : StorageP :=
+  { name := "s", nodes := ["a", "b"], size := 2, capIn := 1, capOut := 1, startLevel := 1, endLevel := 0,
+    costIn := 1/8, costOut := 1/4, costStore := 1/4, effIn := 1/2, inflow := 1/8, price := none,
+    noSimult := false, maxStoreDuration := none, blocks := none }
+
+/-- discharge 1 and 1/4: levels 1/8 and 0 -/
+def stY : Vec := vecOf [0, 0, 1, 1/4]
+def stD : Cycle := ⟨fun k => -(stY k), fun k => stY (2 + k)⟩
+
+/-- hypotheses of `storage_refines_two` hold and the set-up succeeds with a feasible point that moves volume … -/
+example : g2.dt.length = g2.T ∧ 0 < g2.T ∧ (0 ≤ st.endLevel ∧ st.endLevel ≤ st.size) ∧ sep st = true ∧
+    (match buildStorage st g2 2 [] with | .ok a => feasB a stY | .error _ => false) = true := by decide +kernel
+example : Plain st := ⟨rfl, rfl, rfl⟩
+
+/-- … and on it: levels 1/8, 0; minus the model's cost = textbook cash + holding constant (= 7/16);
+    flows `+1`, `+1/4` at the discharge node `b`, nothing at `a` -/
+example : (List.range 2).map (fun k => level (storageS st (fun _ => 0) "a" "b") g2 stD (k + 1)) = [1/8, 0] ∧
+    (match buildStorage st g2 2 [] with
+      | .ok a => decide (- costAt a.c 0 stY = (storageS st (fun _ => 0) "a" "b").cash g2 stD
+                          + (storageS st (fun _ => 0) "a" "b").holdingConstant g2) &&
+                 decide (flowOf a "b" 0 stY = 1) && decide (flowOf a "b" 1 stY = 1/4) && decide (flowOf a "a" 0 stY = 0)
+      | .error _ => false) = true ∧
+    (storageS st (fun _ => 0) "a" "b").holdingConstant g2 = 7/16 ∧
+    (storageS st (fun _ => 0) "a" "b").flows g2 stD "b" 1 = 1/4 := by decide +kernel
+
+/-- transport with capacities ≤ 0 (flow from the second to the first node), costs 1/2, efficiency 3/4:
+    the set-up succeeds; for `f = (−1, −2)` minus the model's cost equals the textbook cash `−Σ df·cost·|f|` -/
+def tr : TransportP :=
+  { name := "t", nodes := ["a", "b"], costsConst := 1/2, costsKey := none, minCap := -2, maxCap := 0,
+    efficiency := 3/4, minTake := [], maxTake := [] }
+example : g2.Ok ∧ (match buildTransport tr g2 [] 2 with
+      | .ok a => feasB a (vecOf [-1, -2]) &&
+                 decide (- costAt a.c 0 (vecOf [-1, -2]) = (transportS tr [0, 0] "a" "b" [] [] 1).cash g2 (vecOf [-1, -2])) &&
+                 decide (flowOf a "a" 1 (vecOf [-1, -2]) = 2) && decide (flowOf a "b" 1 (vecOf [-1, -2]) = -3/2)
+      | .error _ => false) = true ∧
+    (transportS tr [0, 0] "a" "b" [] [] 1).cash g2 (vecOf [-1, -2]) = -1 := by decide +kernel
+
+/-- contract that can only buy, with a spread: one variable, cost coefficient `price − ec` -/
+def ctBuy : ContractP :=
+  { name := "c", nodes := ["n"], price := some "p", extraCosts := .scalar (1/2), minCap := .scalar (-2),
+    maxCap := .scalar 0, minTake := [], maxTake := [] }
+example : (match buildSimpleContract ctBuy g2 [("p", [3, 5])] 2 with
+      | .ok a => feasB a (vecOf [-1, -2]) && decide (a.c = [5/2, 9/4]) &&
+                 decide (- costAt a.c 0 (vecOf [-1, -2])
+                   = (contractS1 [-2, -2] [0, 0] [3, 5] [1/2, 1/2] "n").cash g2 (vecOf [-1, -2]))
+      | .error _ => false) = true := by decide +kernel
+
+/-! ### `ec ≥ 0` is needed for the two-variable form
+
+Spread `−1`, capacities `[−1, 1]`, one step: the model's point `x_in = −1`, `x_out = 1` is feasible, puts nothing
+into the node and earns `2`; the textbook contract with no flow (`q = 0`) earns `0`. -/
+def g1 : Grid := { pts := [0], idx := [0], dt := [1], Dt := [1], df := [1] }
+def ctNeg : ContractP :=
+  { name := "c", nodes := ["n"], price := none, extraCosts := .scalar (-1), minCap := .scalar (-1),
+    maxCap := .scalar 1, minTake := [], maxTake := [] }
+
+theorem ec_nonneg_needed :
+    (match buildSimpleContract ctNeg g1 [] 1 with
+      | .ok a => decide (a.n = 2) && feasB a (vecOf [-1, 1]) && decide (flowOf a "n" 0 (vecOf [-1, 1]) = 0) &&
+                 decide (- costAt a.c 0 (vecOf [-1, 1]) = 2)
+      | .error _ => false) = true ∧
+    ∀ q : Nat → Rat, (contractS1 [-1] [1] [0] [-1] "n").flows g1 q "n" 0 = 0 →
+      (contractS1 [-1] [1] [0] [-1] "n").cash g1 q = 0 := by
+  refine ⟨by decide +kernel, ?_⟩
+  intro q hq
+  have h0 : q 0 = 0 := by
+    simp [ContractS.flows, contractS1, atStep, sumN, stepOf, g1, Grid.T] at hq
+    grind
+  simp [ContractS.cash, contractS1, sumN, g1, Grid.T, h0, absR, dfOf]
+  grind
+
+end EAO.C02.Ex
